@@ -246,6 +246,9 @@ func fieldName(n *types.Named, f *types.Var) string {
 // fieldCanon is the name the rules know a field by (set per run to Program.FieldName: renamed anchor fields keep their recorded name).
 var fieldCanon = func(f *types.Var) string { return f.Name() }
 
+// fieldOwnerCanon: the struct name the rules know a re-identified field under ("" when the field is where they expect it).
+var fieldOwnerCanon = func(f *types.Var) string { return "" }
+
 // fieldsIn returns those objects of s that are struct fields of one of the given types.
 func fieldsIn(s flowx.Set, owner map[*types.Var]*types.Named) []*types.Var {
 	var out []*types.Var
